@@ -6077,6 +6077,10 @@ BD_Shape<T>::generalized_affine_image(const Linear_Expression& lhs,
       for (dimension_type i = lhs_vars.size(); i-- > 0; ) {
         forget_all_dbm_constraints(lhs_vars[i].id() + 1);
       }
+      // Shortest-path closure is preserved, but not reduction.
+      if (marked_shortest_path_reduced()) {
+        reset_shortest_path_reduced();
+      }
       // Constrain the left hand side expression so that it is related to
       // the right hand side expression as dictated by `relsym'.
       // TODO: if the following constraint is NOT a bounded difference,
@@ -6104,6 +6108,10 @@ BD_Shape<T>::generalized_affine_image(const Linear_Expression& lhs,
 
       for (dimension_type i = lhs_vars.size(); i-- > 0; ) {
         forget_all_dbm_constraints(lhs_vars[i].id() + 1);
+      }
+      // Shortest-path closure is preserved, but not reduction.
+      if (marked_shortest_path_reduced()) {
+        reset_shortest_path_reduced();
       }
 #else // Currently unnecessarily complex computation.
 
@@ -6352,6 +6360,10 @@ BD_Shape<T>::generalized_affine_preimage(const Linear_Expression& lhs,
       for (dimension_type i = lhs_vars.size(); i-- > 0; ) {
         forget_all_dbm_constraints(lhs_vars[i].id() + 1);
       }
+      // Shortest-path closure is preserved, but not reduction.
+      if (marked_shortest_path_reduced()) {
+        reset_shortest_path_reduced();
+      }
     }
     else {
 
@@ -6370,6 +6382,10 @@ BD_Shape<T>::generalized_affine_preimage(const Linear_Expression& lhs,
       PPL_ASSERT(!marked_empty());
       for (dimension_type i = lhs_vars.size(); i-- > 0; ) {
         forget_all_dbm_constraints(lhs_vars[i].id() + 1);
+      }
+      // Shortest-path closure is preserved, but not reduction.
+      if (marked_shortest_path_reduced()) {
+        reset_shortest_path_reduced();
       }
       // Constrain the new dimension so that it is related to
       // the left hand side as dictated by `relsym'.
